@@ -572,7 +572,7 @@ func lengthWords(n, h int, thorough bool) [][]byte {
 	rem := n - h - 32
 	v := []*big.Int{bi(0), bi(5), bi(32), bi(33), bi(64), bi(int64(rem - 1)), bi(int64(rem)), bi(int64(rem + 1)),
 		bi(int64(n - 32)), bi(int64(n - 1)), bi(int64(n)), bi(int64(n + 1)),
-		pow2(20), pow2(32), pow2(63), new(big.Int).Sub(two64, bi(1)), two64, max256}
+		pow2(17), pow2(20), pow2(32), pow2(63), new(big.Int).Sub(two64, bi(1)), two64, max256}
 	if thorough {
 		v = append(v, bi(1), bi(31), bi(int64(rem+32)), new(big.Int).Sub(two64, bi(int64(h+32))), new(big.Int).Sub(two64, bi(int64(h+31))), new(big.Int).Add(two64, bi(5)))
 	}
